@@ -258,6 +258,13 @@ def requests():
             out.append({"kind": "y-variable", "field": "g", "text": "query($y: Tag) { g(y: $y) }", "vars": {"y": "w"}, "query_dirs": qd})
             out.append({"kind": "enum-literal", "text": "{ en(v: ONE) }", "vars": None, "query_dirs": qd})
             out.append({"kind": "enum-variable", "text": "query($v: E) { en(v: $v) }", "vars": {"v": "ONE"}, "query_dirs": qd})
+        if len(qd) == 2:
+            # the same response key selected twice: the directives of the merged field nodes nest in node order
+            a, b = ' @t%d(id: "%s")' % (NDIR, qd[0]), ' @t%d(id: "%s")' % (NDIR - 1, qd[1])
+            out.append({"kind": "y-literal", "field": "f", "text": '{ f(y: "w")%s f(y: "w")%s }' % (a, b), "vars": None, "query_dirs": qd})
+            out.append({"kind": "y-literal", "field": "f", "text": '{ f(y: "w")%s ...FF } fragment FF on Query { f(y: "w")%s }' % (a, b),
+                        "vars": None, "query_dirs": qd})
+            out.append({"kind": "object", "text": "{ o%s { s } o%s { tags } }" % (a, b), "vars": None, "query_dirs": qd, "split": True})
         out.append({"kind": "object", "text": "{ o%s { s tags } }" % qtext, "vars": None, "query_dirs": qd})
         out.append({"kind": "interface", "text": "{ n%s { s tags } }" % qtext, "vars": None, "query_dirs": qd})
         out.append({"kind": "union", "text": "{ u%s { ... on O { s tags } } }" % qtext, "vars": None, "query_dirs": qd})
